@@ -276,4 +276,71 @@ def run (c : Codec β) : List (Op β) → File β → Except Err (File β)
     | .ok f' => run c ops f'
     | .error e => .error e
 
+/-! ### `plasTeX/Packages/xr.py` : `\externaldocument[prefix]{name}[url]`
+
+The second reader of a saved file.  It keeps the saved records themselves (dictionaries, not nodes) in
+`context.labels`, under `prefix + label`, with `url` prepended to the record's `url`.  `xrLoad` is the code as it
+is (after the repair that skips whatever does not have the saved layout): it walks the sections of *every*
+renderer in file order (`.values()`), so a label saved under two renderers is read from the later section.
+`xrLoadR` reads only the section of the renderer in use (the variant that satisfies "separately per renderer"). -/
+
+/-- records kept by xr: label ↦ saved attribute dictionary -/
+abbrev XLabels := List (Key × Val)
+
+/-- body of the per-entry `try`: `val` must be a record; `val['url'] = url + val['url']`; key `prefix + lbl` -/
+def xrEntry (pfx : String) (url : Option String) (k : Key) (v : Val) : Except Err (Key × Val) :=
+  match v with
+  | .dict kvs =>
+    let rcd := toDict kvs
+    let rcd' : Except Err (List (Key × Val)) :=
+      match url with
+      | none => .ok rcd
+      | some u =>
+        match aget (.str "url") rcd with
+        | none => .error .keyError
+        | some (.str s) => .ok (aset (.str "url") (.str (u ++ s)) rcd)
+        | some _ => .error .typeError
+    match rcd' with
+    | .error e => .error e
+    | .ok d =>
+      match k with
+      | .str l => .ok (.str (pfx ++ l), .dict d)
+      | _ => .error .typeError                    -- `prefix + lbl`
+  | _ => .error .typeError
+
+/-- `for lbl, val in block.items(): try: … except Exception: log.warning(…)` -/
+def xrBlock (pfx : String) (url : Option String) : List (Key × Val) → XLabels → XLabels
+  | [], L => L
+  | (k, v) :: r, L =>
+    match xrEntry pfx url k v with
+    | .ok (k', v') => xrBlock pfx url r (aset k' v' L)
+    | .error _ => xrBlock pfx url r L
+
+/-- `for block in data.values(): if not isinstance(block, dict): continue; …` -/
+def xrBlocks (pfx : String) (url : Option String) : List (Key × Val) → XLabels → XLabels
+  | [], L => L
+  | (_, .dict blk) :: r, L => xrBlocks pfx url r (xrBlock pfx url (toDict blk) L)
+  | _ :: r, L => xrBlocks pfx url r L
+
+/-- `load_paux` + the loop of `externaldocument.invoke` -/
+def xrLoad (c : Codec β) (pfx : String) (url : Option String) (f : File β) (L : XLabels) : XLabels :=
+  match f with
+  | .missing => L
+  | .bytes b =>
+    match c.dec b with
+    | some (.dict kvs) => xrBlocks pfx url (toDict kvs) L
+    | _ => L                                      -- `except:` / not a dict → `dict()`
+
+/-- the per-renderer variant: only the section of renderer `r` is read -/
+def xrLoadR (c : Codec β) (r : String) (pfx : String) (url : Option String) (f : File β) (L : XLabels) : XLabels :=
+  match f with
+  | .missing => L
+  | .bytes b =>
+    match c.dec b with
+    | some (.dict kvs) =>
+      match aget (.str r) (toDict kvs) with
+      | some (.dict blk) => xrBlock pfx url (toDict blk) L
+      | _ => L
+    | _ => L
+
 end PlasVerif.Model.Persist
